@@ -28,6 +28,24 @@ fn main() {
                 writeln!(out, "{v}").unwrap();
             }
         }
+        // c17 <font>... : summary fields recomputed from the tables
+        "c17" => {
+            // a font path prefixed with "noranges:" comes from a source that sets its Unicode ranges explicitly
+            for p in &args[2..] {
+                let (p, ranges) = match p.strip_prefix("noranges:") {
+                    Some(rest) => (&rest.to_string(), false),
+                    None => (p, true),
+                };
+                let v = match std::fs::read(p) {
+                    Ok(data) => match std::panic::catch_unwind(|| eval::summary::check(&data, ranges)) {
+                        Ok(rep) => json!({"font": p, "errors": rep.errors, "fields_checked": rep.fields_checked, "nontrivial": rep.nontrivial}),
+                        Err(_) => json!({"font": p, "oracle_panicked": true}),
+                    },
+                    Err(e) => json!({"font": p, "io_error": e.to_string()}),
+                };
+                writeln!(out, "{v}").unwrap();
+            }
+        }
         // src <manifest.json> <font> [fontc options...] : manifest-based oracles (C03 C04 C06 C08)
         "src" => {
             let man: serde_json::Value = serde_json::from_slice(&std::fs::read(&args[2]).unwrap()).unwrap();
